@@ -130,6 +130,11 @@ def build_source(spec, env):
         return q
     if kind == "cte":
         return P.AliasedQuery(spec[1])
+    if kind == "mk":
+        # a table made by make_tables / Query.Tables: a name, or a (name, alias) pair
+        from pypika_tortoise.queries import make_tables
+
+        return make_tables((spec[1], spec[2]) if len(spec) > 2 and spec[2] is not None else spec[1])[0]
     raise HarnessError("bad source %r" % (spec,))
 
 
